@@ -588,6 +588,8 @@ package ship
 //@   ensures [C04] E3-step: stepOK(c.role, old(c.smeState), c.smeState)
 //@   atcall HandleShipPayloadMessage [C01] G4-deliver: c.smeState == model.SmeStateComplete || c.smeState == model.SmeStateError
 //@   atcall HandleShipPayloadMessage [C06] B6-direct: $0 == @PAYLOAD() && old(c.dataReader) != nil && len(c.spineBuffer) == 0
+// every datagram that decodes and arrives before the handshake completed is buffered - none is dropped, however many wait
+//@   ensures [C06] B9-accepted: called(shipModelFromMessage) && lasterr(shipModelFromMessage) == nil && old(c.dataReader) == nil ==> len(c.spineBuffer) == old(len(c.spineBuffer)) + 1
 //@   ensures [C06] B7-buffered: old(c.dataReader) == nil && c.dataReader == nil ==> len(c.spineBuffer) == old(len(c.spineBuffer)) || (len(c.spineBuffer) == old(len(c.spineBuffer)) + 1 && c.spineBuffer[old(len(c.spineBuffer))] == @PAYLOAD() && (forall i: int :: 0 <= i && i < old(len(c.spineBuffer)) ==> c.spineBuffer[i] == old(c.spineBuffer)[i]))
 //@   ensures [C11] F1-step: @F1STEP(c)
 //@   modifies @hs(c)
